@@ -119,7 +119,7 @@ PROPS = {
                        "plus 200 ms); a session start with another cluster must be answered first with Rejection(DifferentCluster), a same-cluster one must not; then 2-6 members (generated cluster, ring0 flag) "
                        "are put in the membership table with UDP sockets as addresses, 1-3 local writes are made through the HTTP API and one handle_sync round is run on top of the node's own loops: "
                        "no datagram may arrive at a member of another cluster (broadcast ring0, broadcast random targets, sync candidates)"),
-        "level_note": "negative assertions are time-bounded observations (2.5 s for member contact, marker + 200 ms for application): a violation that needs longer is missed, never misreported; the sync-client side (answers of a server) carries no cluster id on the wire, its isolation rests on partner choice and the server-side rejection, which are what is checked; changing the cluster id at run time (admin command) is not exercised",
+        "level_note": "negative assertions are time-bounded observations (2.5 s for member contact, marker + 200 ms for application): a violation that needs longer is missed, never misreported; the sync-client side (answers of a server) carries no cluster id on the wire, its isolation rests on partner choice and the server-side rejection, which are what is checked; in 40 % of the cases the node's cluster id is changed at run time before a generated frame (persisted in __corro_state and Agent::set_cluster_id, the two effects of the admin command that matter here; the SWIM identity change is not replayed) and later frames use the connection that was already open",
         "rule": ("generated as above. Non-trivial: in the same case a foreign-declared version was ignored, a same-cluster version was applied, a same-cluster member was contacted and at least one "
                  "member of another cluster was listed. Distinct = hash of the case."),
         "assumptions": ["loopback UDP delivers the first QUIC datagram of a connection attempt within the observation window"],
